@@ -50,6 +50,8 @@ pub struct Program {
     pub name: String,
     pub steps: Steps,
     pub clocks: bool,
+    /// `Config::max_time` in milliseconds (config time=MS)
+    pub time_ms: Option<u64>,
     pub objs: Vec<ObjDecl>,
     pub tasks: Vec<TaskDecl>,
     pub run: String,
@@ -79,6 +81,7 @@ pub fn parse_batch(text: &str) -> Vec<Program> {
                 name: name.trim().to_string(),
                 steps: Steps::None,
                 clocks: true,
+                time_ms: None,
                 objs: vec![],
                 tasks: vec![],
                 run: "rr:1".into(),
@@ -121,6 +124,8 @@ pub fn parse_batch(text: &str) -> Vec<Program> {
                         } else {
                             Steps::None
                         };
+                    } else if let Some(v) = kv.strip_prefix("time=") {
+                        p.time_ms = v.parse().ok();
                     } else if let Some(v) = kv.strip_prefix("clocks=") {
                         p.clocks = v != "0";
                     }
